@@ -947,7 +947,32 @@ struct Executor {
     }
 
     // call-boundary faults (C09 b): NULL session, ESI out of range, wrong role
+    // A session that was created but never (successfully) configured has n = 0: every ESI is outside 0..n-1, so decoding and
+    // building calls must be refused with an error status - and the session must still release cleanly.
+    void do_fault_unconfigured(SesCtx &sc, const Op &op) {
+        const std::string &kind = op.arg;
+        uint32_t e = kind == "unconf:esi0" ? 0u : kind == "unconf:esi1" ? 1u : 0xFFFFFFFFu;
+        count("api_fault:" + kind + (sc.setp_done ? ":after-rejected-config" : ":before-config"));
+        int st;
+        status(&sc, "fault", true);
+        if (sc.s->role == R_DEC) {
+            AppBuf tmp = app_alloc(16, 0, nullptr);
+            st = ad_decode(sc.h, tmp.p, e, sc.s->id);
+            app_free(tmp);
+        } else {
+            void *tab[4] = {nullptr, nullptr, nullptr, nullptr};
+            st = ad_build(sc.h, tab, e, sc.s->id);
+        }
+        status_done(); res.lib_calls++;
+        if (st == 0) viol({"C09"}, "valid", "bad-call-accepted:" + kind + ":codec=" + cn(sc), "session without a valid configuration", &sc);
+        Hash64 x; x.str(kind.c_str());
+        trace_step(sc, "FAULT", (int64_t)e, st, 0, x);
+    }
+
     void do_fault(SesCtx &sc, const Op &op) {
+        // only before any of_set_fec_parameters call: what a session does after a *rejected* configuration is not covered by
+        // C09's wording (n is undefined there), and the unchanged library does crash in that state
+        if (sc.created && !sc.setp_done && !sc.released && op.arg.rfind("unconf:", 0) == 0) { do_fault_unconfigured(sc, op); return; }
         if (!sc.configured || sc.released) return;
         if (sc.finalised && !is_rs(sc)) return;
         const std::string &kind = op.arg;
